@@ -245,6 +245,9 @@ def _fit_level(ctx, N):
                 bound = _trunc_bound(v.term)
                 ok = bound is not None and N.nf(bound) == N.nf(nsel.term)
                 ctx.ob("R-TRUNC", f"{b} cut to n_selected_ on a threshold stop", ok, f"bound of the cut is {bound!r}, number of selections is {nsel.term!r}", f"{rets[0]['func']}:{rets[0]['line']}", cfg)
+                if b == "X_selected_" and bound is not None:
+                    cut_axis = _trunc_axis(v.term)
+                    ctx.ob("R-TRUNC", f"X_selected_ is cut along the selection axis on a threshold stop [{cfg}]", cut_axis == axis, f"cut along axis {cut_axis}, selection axis {axis}", f"{rets[0]['func']}:{rets[0]['line']}", cfg)
             sup = heap.get("support_")
             sel = heap["selected_idx_"]
             ok = sup is not None and sup.kind != "undef" and sup.term.op == "store" and N.nf(sup.term.args[1]) == N.nf(sel.term)
@@ -275,6 +278,17 @@ def _trunc_bound(t):
         return b
     if idx.op == "call" and idx.args[0] == "arange" and len(idx.args[1]) == 1:
         return idx.args[1][0]
+    return None
+
+
+def _trunc_axis(t):
+    """axis of the prefix cut found by _trunc_bound"""
+    idx = t.args[1]
+    if idx.op != "tuple":
+        return 0
+    for k, x in enumerate(idx.args):
+        if not (x.op == "slice" and all(a.op == "const" and a.args[0] is None for a in x.args)):
+            return k
     return None
 
 
